@@ -146,3 +146,16 @@ Fixpoint pos_in (R : list nat) (v : nat) : nat :=
 
 Definition order_rank (g : graph) (A : nat -> bool) (v : nat) : Z :=
   Z.of_nat (pos_in (discovery_order g A) v).
+
+(* ------------------------------------------------------------------------ *)
+(* The caller's side of the theorem: the first m entries of is_active_edge are
+   BoolExpr-like objects whose value, in every assignment that agrees with the
+   caller's assignment [en] on the variables declared so far (ids < k), is the
+   pattern bit A e.  (Variables, negations, conjunctions, Python True/False and
+   any other boolean expression over the caller's variables are instances; see
+   AcyclicFlags.v.)                                                            *)
+Definition flags_denote (gsem : op -> list (option value) -> option bool)
+    (k : nat) (en : env) (flags : list expr) (m : nat) (A : nat -> bool) : Prop :=
+  forall e, (e < m)%nat ->
+    exists f, nth_error flags e = Some f /\ is_bool_expr_like f = true /\
+              forall en', agree_below k en en' -> eval gsem en' f = Some (VB (A e)).
